@@ -76,7 +76,7 @@ ORIG_EXPECT = [
     ("C14", "R14.6", "_combine_commit_bitmaps"), ("C14", "R14.6", "GraphTraversalReachability.get_reachable_objects"),
     ("C13", "R13.3", "_find_lcas"), ("C20", "R20.5", "_escape_value"), ("C06", "R06.5", "DiskRefsContainer.set_if_equals"),
     ("C09", "R09.11", "BaseRepo.fetch"), ("C09", "R09.12", "Stash.push"),
-    ("C07", "R07.6", "_compact_tables_list"), ("C07", "R07.6", "_flush_pending_updates"), ("C11", "R11.9", "Index.read"), ("C10", "R10.13", "find_reachable_objects"), ("C10", "R10.14", "garbage_collect"), ("C04", "R04.4", "Bundle.store_objects"), ("C05", "R05.8", "_handle_upload_pack_tail"), ("C05", "R05.9", "find_missing_objects"),
+    ("C07", "R07.6", "_compact_tables_list"), ("C07", "R07.6", "_flush_pending_updates"), ("C16", "R16.16", "_encode_reftable_suffix_and_type"), ("C16", "R16.16", "_decode_reftable_suffix_and_type"), ("C11", "R11.9", "Index.read"), ("C10", "R10.13", "find_reachable_objects"), ("C10", "R10.14", "garbage_collect"), ("C04", "R04.4", "Bundle.store_objects"), ("C05", "R05.8", "_handle_upload_pack_tail"), ("C05", "R05.9", "find_missing_objects"),
     ("C16", "R16.15", "DiskRefsContainer.add_if_new"), ("C16", "R16.15", "DiskRefsContainer.set_if_equals"), ("C16", "R16.15", "DiskRefsContainer.set_symbolic_ref"),
 ]
 
